@@ -677,6 +677,34 @@ func List(r *core.Rand, max int, o Opts) []rtcp.Packet {
 	return out
 }
 
+// ManyBlocksXR draws an XR value of 16 382…65 000 small blocks (empty unknown blocks, empty DLRR
+// blocks, receiver reference times, the odd larger block) whose encoding fits the 16-bit length.
+func ManyBlocksXR(r *core.Rand) *rtcp.ExtendedReport {
+	x := &rtcp.ExtendedReport{SenderSSRC: r.B32()}
+	n := r.Pick(16382, 16383, 16384, 16385, 16400, 20000, 21845, 32767, 32768, 32769, 50000, 65000)
+	size := 8
+	for i := 0; i < n && size < 262144-64; i++ {
+		var b rtcp.ReportBlock
+		switch k := r.Intn(16); {
+		case k < 9:
+			b = &rtcp.UnknownReportBlock{XRHeader: rtcp.XRHeader{BlockType: rtcp.BlockTypeType(r.Pick(0, 8, 9, 25, 100, 255)), TypeSpecific: rtcp.TypeSpecificField(r.U8())}}
+			size += 4
+		case k < 14:
+			b = &rtcp.DLRRReportBlock{}
+			size += 4
+		case k < 15 || n > 40000:
+			b = &rtcp.UnknownReportBlock{XRHeader: rtcp.XRHeader{BlockType: rtcp.BlockTypeType(8 + r.Intn(200))}, Bytes: r.Bytes(4)}
+			size += 8
+		default:
+			b = &rtcp.ReceiverReferenceTimeReportBlock{NTPTimestamp: r.U64()}
+			size += 12
+		}
+		x.Reports = append(x.Reports, b)
+	}
+	x.Reports = append(x.Reports, &rtcp.ReceiverReferenceTimeReportBlock{NTPTimestamp: r.U64()})
+	return x
+}
+
 // BigPacket draws a well-formed value whose encoding has 65536 octets or more (but fits the
 // 16-bit length field): the sizes at which 16-bit byte arithmetic wraps.
 func BigPacket(r *core.Rand) rtcp.Packet {
@@ -694,8 +722,11 @@ func BigPacket(r *core.Rand) rtcp.Packet {
 			s.Chunks = append(s.Chunks, c)
 		}
 		return s
-	case 2: // XR with one large block
+	case 2: // XR with one large block, or with very many small ones
 		x := &rtcp.ExtendedReport{SenderSSRC: r.B32()}
+		if r.Chance(1, 3) {
+			return ManyBlocksXR(r)
+		}
 		if r.Bool() {
 			x.Reports = append(x.Reports, &rtcp.UnknownReportBlock{XRHeader: rtcp.XRHeader{BlockType: rtcp.BlockTypeType(8 + r.Intn(200))}, Bytes: r.Bytes(4 * r.Pick(16383, 16384, 20000, 40000, 65530))})
 		} else {
